@@ -63,6 +63,13 @@ func (l *SimLiquidWallet) newAddr() (string, []byte, error) {
 	return addr, script, nil
 }
 
+// foreignAddr: an address of a wallet that is not this node's swap wallet (not in its book).
+func (l *SimLiquidWallet) foreignAddr() (string, error) {
+	l.addrSeq++
+	p := payment.FromPublicKey(l.key("default-wallet-spend", l.addrSeq).PubKey(), &network.Regtest, l.key("default-wallet-blind", l.addrSeq).PubKey())
+	return p.ConfidentialWitnessPubKeyHash()
+}
+
 func (l *SimLiquidWallet) GetAddress() (string, error) {
 	f := l.n.op("lwallet.newaddr")
 	if f != nil && f.Kind == "err" {
@@ -182,13 +189,7 @@ func (l *SimLiquidWallet) fundAndBroadcast(addr string, amount uint64, asset []b
 		v, _ := elementsutil.ValueToBytes(uint64(1000 + i))
 		outs = append(outs, transaction.NewTxOutput(asset, v, es))
 	}
-	idx := lay.SwapIndex
-	if idx < 0 {
-		idx = 0
-	}
-	if idx > len(outs) {
-		idx = len(outs)
-	}
+	idx := swapIndexFor(lay, len(outs))
 	outs = append(outs[:idx], append([]*transaction.TxOutput{swapOut}, outs[idx:]...)...)
 	fv, _ := elementsutil.ValueToBytes(fee)
 	outs = append(outs, transaction.NewTxOutput(asset, fv, []byte{}))
